@@ -278,15 +278,17 @@ def gen_request(r):
 # ---------------------------------------------------------------------------------------------
 
 def classify(monitor, host, target="", port_elided=True):
-    """monitor: which check failed; host: host of the URL / edit that was applied last; target: path+query text;
-    port_elided: the request's port is the scheme default (no ':port' is appended to the host)."""
-    if monitor in ("readback", "reassign", "host-header", "authority") and ref.host_is_ipv6(host):
+    """monitor: which check failed and how; host: host of the URL / edit that was applied last; target: path+query text;
+    port_elided: the request's port is the scheme default (no ':port' is appended to the host).
+    Each mechanism is tied to the one failure shape it explains (an unbracketed IPv6 literal is *unparseable*, it never
+    merely 'points elsewhere'), so a different defect on the same kind of host stays unclassified."""
+    if monitor in ("readback-unparseable", "reassign-raises", "host-header-unparseable", "authority-unparseable") and ref.host_is_ipv6(host):
         return "ipv6-literal-host-unbracketed"
-    if monitor == "reassign" and ref.host_is_idn(host):
+    if monitor == "reassign-raises" and ref.host_is_idn(host):
         return "idn-host-readback-url-not-reassignable"
-    if monitor == "authority" and not port_elided and ref.host_is_idn(host.rstrip(".").rsplit(".", 1)[-1]):
+    if monitor == "authority-unparseable" and not port_elided and ref.host_is_idn(host.rstrip(".").rsplit(".", 1)[-1]):
         return "idn-last-label-punycoded-together-with-port"
-    if monitor in ("readback", "components"):
+    if monitor in ("readback-differs", "components"):
         m = _TARGET.match(target)
         last = m["path"].rsplit("/", 1)[-1] if m else ""
         if ";" in last and last.index(";") == len(last) - 1:
@@ -325,11 +327,11 @@ def check_pointing(ctx, req, had_host, had_auth, host_for_class, wit):
             try:
                 got = ref.parse_hostport(v, req.scheme)
             except ref.RefURLError as e:
-                ctx.violation("host-header-unparseable", {**wit, "host_header": v, "want": want, "err": str(e)}, classify("host-header", host_for_class))
+                ctx.violation("host-header-unparseable", {**wit, "host_header": v, "want": want, "err": str(e)}, classify("host-header-unparseable", host_for_class))
                 got = want
                 ok = False
             if got != want:
-                ctx.violation("host-header-points-elsewhere", {**wit, "host_header": v, "denotes": got, "want": want}, classify("host-header", host_for_class))
+                ctx.violation("host-header-points-elsewhere", {**wit, "host_header": v, "denotes": got, "want": want})
                 ok = False
     if had_auth:
         ctx.count("edit.authority_points_to_destination")
@@ -340,10 +342,10 @@ def check_pointing(ctx, req, had_host, had_auth, host_for_class, wit):
         try:
             got = ref.parse_hostport(raw.decode("utf-8", "surrogateescape"), req.scheme)
         except ref.RefURLError as e:
-            ctx.violation("authority-unparseable", {**wit, "authority": raw, "want": want, "err": str(e)}, classify("authority", host_for_class, port_elided=ref.DEFAULT_PORT.get(req.scheme) == req.port))
+            ctx.violation("authority-unparseable", {**wit, "authority": raw, "want": want, "err": str(e)}, classify("authority-unparseable", host_for_class, port_elided=ref.DEFAULT_PORT.get(req.scheme) == req.port))
             return False
         if got != want:
-            ctx.violation("authority-points-elsewhere", {**wit, "authority": raw, "denotes": got, "want": want}, classify("authority", host_for_class, port_elided=ref.DEFAULT_PORT.get(req.scheme) == req.port))
+            ctx.violation("authority-points-elsewhere", {**wit, "authority": raw, "denotes": got, "want": want})
             ok = False
     return ok
 
@@ -373,11 +375,11 @@ def check_url_assign(ctx, req, g, had_host, had_auth, wit, as_bytes=False):
     try:
         got = ref.parse_url(u1)
     except ref.RefURLError as e:
-        ctx.violation("readback-not-a-valid-url", {**wit, "err": str(e)}, classify("readback", g["host"], g["target"]))
+        ctx.violation("readback-not-a-valid-url", {**wit, "err": str(e)}, classify("readback-unparseable", g["host"], g["target"]))
         got = None
     if got is not None and got != exp:
         diff = [k for k in exp if exp[k] != got[k]]
-        ctx.violation("readback-not-equivalent:" + "+".join(diff), {**wit, "want": exp, "got": got}, classify("readback", g["host"], g["target"]))
+        ctx.violation("readback-not-equivalent:" + "+".join(diff), {**wit, "want": exp, "got": got}, classify("readback-differs", g["host"], g["target"]))
         return False
     ctx.count("url.components_consistent")
     bad = []
@@ -403,11 +405,11 @@ def check_url_assign(ctx, req, g, had_host, had_auth, wit, as_bytes=False):
     try:
         req.url = u1
     except Exception as e:
-        ctx.violation(f"reassign-raises:{type(e).__name__}", {**wit, "exc": repr(e)[:200]}, classify("reassign", g["host"]))
+        ctx.violation(f"reassign-raises:{type(e).__name__}", {**wit, "exc": repr(e)[:200]}, classify("reassign-raises", g["host"]))
         return False
     after = snapshot(req)
     if after != before:
-        ctx.violation("reassign-changes-state", {**wit, "before": before, "after": after}, classify("reassign", g["host"]))
+        ctx.violation("reassign-changes-state", {**wit, "before": before, "after": after})
         return False
     return got is not None
 
